@@ -16,7 +16,7 @@ The generic runner feeds the case lines to the `core` harness binary as well (it
 that line is ignored: the implementation's observation for a case comes from the generated program and is
 kept in `case.meta["impl"]` (recomputed by compiling a one-document program when a case is replayed).
 """
-import fcntl, os, random, re, shutil, struct
+import fcntl, hashlib, os, random, re, shutil, struct
 
 import common
 import floatnorm
@@ -555,6 +555,192 @@ def program(texts):
     return "".join(out)
 
 
+# ---------------------------------------------------------------------------------------------
+# the rule table of toml_internal!, read from the source: heads in source order, and for every body its kind
+# (+ the arguments of the re-invocation).  It must equal the table Model/Macro.v `rules` is written from
+# (`rules -` of the extracted model); the Rust code inside the bodies and the helper functions below the
+# macro are compared with a committed digest (they are modelled by hand: a change means "re-inspect").
+# ---------------------------------------------------------------------------------------------
+MACROS_RS = os.path.join("crates", "toml", "src", "macros.rs")
+CODE_DIGEST = "0228f8618f7aa728780fdfb03ff5cb6f398d7379"
+
+
+def strip_comments(src):
+    out = []; i = 0; n = len(src)
+    while i < n:
+        c = src[i]
+        if c == '"':
+            j = i + 1
+            while j < n and src[j] != '"':
+                j += 2 if src[j] == "\\" else 1
+            out.append(src[i:j + 1]); i = j + 1
+        elif src.startswith("//", i):
+            j = src.find("\n", i); j = n if j < 0 else j
+            i = j
+        else:
+            out.append(c); i += 1
+    return "".join(out)
+
+OPEN = {"(": ")", "[": "]", "{": "}"}
+
+def match_close(s, i):
+    """s[i] is an opening bracket; index of its closing partner (string literals skipped)"""
+    depth = 0; n = len(s)
+    while i < n:
+        c = s[i]
+        if c == '"':
+            i += 1
+            while s[i] != '"':
+                i += 2 if s[i] == "\\" else 1
+        elif c in "([{":
+            depth += 1
+        elif c in ")]}":
+            depth -= 1
+            if depth == 0:
+                return i
+        i += 1
+    raise ValueError("unbalanced")
+
+def parse_seq(s):
+    """macro pattern / template text -> nodes"""
+    nodes = []; i = 0; n = len(s)
+    while i < n:
+        c = s[i]
+        if c.isspace():
+            i += 1
+        elif c == "$":
+            if s[i + 1] == "(":
+                j = match_close(s, i + 1)
+                inner = parse_seq(s[i + 2:j])
+                k = j + 1
+                if s[k] in "+*":
+                    sep, op = "", s[k]; k += 1
+                else:
+                    sep, op = s[k], s[k + 1]; k += 2
+                    assert op in "+*", s[i:k]
+                nodes.append(("rep", inner, sep, op)); i = k
+            else:
+                m = re.match(r"[A-Za-z_][A-Za-z_0-9]*", s[i + 1:])
+                name = m.group(0); k = i + 1 + len(name)
+                m2 = re.match(r":([a-z]+)", s[k:])
+                if m2:
+                    nodes.append(("var", name, m2.group(1))); k += len(m2.group(0))
+                else:
+                    nodes.append(("var", name, None))
+                i = k
+        elif c in "([{":
+            j = match_close(s, i)
+            nodes.append(("group", c, parse_seq(s[i + 1:j]))); i = j + 1
+        elif c.isalnum() or c == "_":
+            m = re.match(r"[A-Za-z_0-9]+", s[i:])
+            nodes.append(("ident", m.group(0))); i += len(m.group(0))
+        else:
+            nodes.append(("punct", c)); i += 1
+    return nodes
+
+def show(node, tpl):
+    k = node[0]
+    if k == "ident" or k == "punct":
+        return node[1]
+    if k == "var":
+        return "$" + node[1] + ((":" + node[2]) if (node[2] and not tpl) else "")
+    if k == "group":
+        return node[1] + "".join(" " + show(x, tpl) for x in node[2]) + " " + OPEN[node[1]]
+    return "$(" + "".join(" " + show(x, tpl) for x in node[1]) + " )" + node[2] + ("" if tpl else node[3])
+
+def show_seq(nodes, tpl):
+    return " ".join(show(x, tpl) for x in nodes)
+
+def invocations(body):
+    """argument texts of every `$crate::toml_internal!( ... )` in a body, in order"""
+    out = []; i = 0
+    while True:
+        k = body.find("toml_internal!(", i)
+        if k < 0:
+            return out
+        o = k + len("toml_internal!")
+        j = match_close(body, o)
+        out.append(body[o + 1:j]); i = o + 1
+
+def classify(body):
+    b = " ".join(body.split())
+    inv = invocations(body)
+    last = show_seq(parse_seq(inv[-1]), True) if inv else ""
+    if b == "":
+        return "nothing"
+    if re.fullmatch(r"\$crate::toml_internal!\(.*\);", b) and len(inv) == 1:
+        return "invoke " + last
+    if "insert_table_toml(" in b:
+        return "tabheader"
+    if "push_toml(" in b:
+        return "arrheader"
+    if "insert_toml(" in b and "Value::Datetime(" in b:
+        return "insertdt " + last
+    if "insert_toml(" in b and "toml_internal!(@value $v)" in b:
+        return "insert " + last
+    if "$root.push($crate::toml_internal!(@value $v))" in b:
+        return "push " + last
+    if "$root.push($crate::Value::Datetime(" in b:
+        return "pushdt " + last
+    if b == "stringify!($ident)":
+        return "pathident"
+    if b == "$quoted":
+        return "pathquoted"
+    if "let mut table = $crate::Value::Table(" in b and b.rstrip("}").rstrip().endswith("table"):
+        return "valtable " + last
+    if "let mut array = $crate::value::Array::new();" in b and "$crate::Value::Array(array)" in b:
+        return "valarray " + last
+    if "NAN.copysign(-1.0)" in b:
+        return "const f:-nan"
+    if "NAN.copysign(1.0)" in b:
+        return "const f:nan"
+    if "NEG_INFINITY" in b:
+        return "const f:-inf"
+    if "INFINITY" in b:
+        return "const f:inf"
+    if "into_deserializer($v)" in b and "deserialize(de).unwrap()" in b:
+        return "other"
+    return "unknown:" + b[:60]
+
+def rules_of(src):
+    src = strip_comments(src)
+    k = src.index("macro_rules! toml_internal")
+    o = src.index("{", k)
+    end = match_close(src, o)
+    text = src[o + 1:end]
+    rules = []; i = 0; n = len(text); bodies = []
+    while True:
+        while i < n and text[i].isspace():
+            i += 1
+        if i >= n:
+            break
+        assert text[i] == "(", text[i:i + 40]
+        j = match_close(text, i)
+        head = text[i + 1:j]
+        m = re.match(r"\s*=>\s*", text[j + 1:])
+        b0 = j + 1 + len(m.group(0))
+        b1 = match_close(text, b0)
+        body = text[b0 + 1:b1]
+        while body.strip().startswith("{") and match_close(body.strip(), 0) == len(body.strip()) - 1:
+            body = body.strip()[1:-1]                    # `=> {{ ... }}`
+        i = b1 + 1
+        m = re.match(r"\s*;", text[i:])
+        if m:
+            i += len(m.group(0))
+        rules.append(show_seq(parse_seq(head), False) + " => " + classify(body))
+        bodies.append(" ".join(body.split()))
+    helpers = " ".join(src[end + 1:].split())
+    code = hashlib.sha1(("\n".join(bodies) + "\n" + helpers).encode()).hexdigest()
+    return rules, code
+
+
+
+def source_rules_line():
+    import hashlib
+    rules, code = rules_of(open(os.path.join(common.REPO, MACROS_RS), encoding="utf-8").read())
+    return "n=%d det=true rules=%s" % (len(rules), " ;; ".join(rules).encode().hex()), code
+
+
 class BuildError(Exception):
     pass
 
@@ -687,7 +873,7 @@ def gen_cases(rng, tier):
         cases.append(Case("macro", [ser_doc(stmts)], {"kind": "random" if valid else "random-invalid", "text": text, "supported": True,
                                                       "valid": valid}))
     observe(cases)
-    return cases
+    return [Case("rules", [b""], {"kind": "rules", "supported": False})] + cases
 
 
 # ---------------------------------------------------------------------------------------------
@@ -709,6 +895,8 @@ def impl_of(case):
 
 
 def oracle(case, _core_line):
+    if case.cmd == "rules":
+        return None                                   # a correspondence-only case
     line = impl_of(case)
     if line is None:
         return "case carries no document text"
@@ -729,6 +917,21 @@ def oracle(case, _core_line):
 
 
 def compare(case, model_line, _core_line):
+    if case.cmd == "rules":
+        try:
+            line, code = source_rules_line()
+        except Exception as e:                        # the source no longer has the shape the reader understands
+            return "cannot read the rules of toml_internal! from %s: %r" % (MACROS_RS, e)
+        if line != model_line:
+            ours = bytes.fromhex(fields(line).get("rules", "")).decode().split(" ;; ")
+            theirs = bytes.fromhex(fields(model_line).get("rules", "")).decode("utf-8", "replace").split(" ;; ")
+            diff = [(a, b) for a, b in zip(ours, theirs) if a != b][:1]
+            return "the rules of toml_internal! differ from Model/Macro.v `rules` (%d vs %d rules)%s" % (
+                len(ours), len(theirs), ": source `%s` / model `%s`" % diff[0] if diff else "")
+        if code != CODE_DIGEST:
+            return ("the Rust code in the rule bodies or the helper functions of %s changed (digest %s): "
+                    "Model/Macro.v `invoke` / `slot_update` must be re-inspected" % (MACROS_RS, code))
+        return None
     line = impl_of(case)
     if floatnorm.norm(model_line) == line:
         return None
@@ -736,6 +939,8 @@ def compare(case, model_line, _core_line):
 
 
 def nontrivial(case, _core_line):
+    if case.cmd == "rules":
+        return False
     f = fields(case.meta.get("impl"))
     return case.meta.get("supported", True) and f.get("ref") not in (None, "invalid", "?") and f.get("macro") == f.get("ref")
 
@@ -757,7 +962,13 @@ def extra_coverage(cases, impl, model):
     return {"documents_with": feats, "impl_lines": "from the generated program (toml!{..} compiled by rustc against /repo)"}
 
 
-THEOREMS = []
+THEOREMS = [
+    "C19_macro_eq_parse: forall l t, macro_supported l = true -> eval l = Some t -> macro_eval (tokens_of l) = EOk t  (the full claim, on the model)",
+    "C19_macro_total: supported valid documents expand without error within the model's fuel",
+    "C19_helpers_follow_definition_rules / C19_helper_step: insert_toml, insert_table_toml, push_toml through traverse build what the TOML definition rules say, statement by statement, on every valid document",
+    "C19_value_eq_parse / C19_datetime_rules: every supported value (signed numbers through rustc's literal typing, the four date-time kinds with T/t/space, fraction, Z/z/-hh:mm through stringify!+from_str and C12, arrays and inline tables through the @trailingcomma/@array/@table loops) gets its TOML meaning",
+    "C19_int_key_refuted, C19_negative_wrap_refuted: two families of spellings that compile but are outside macro_supported (`05 = 1` names key \"5\"; `a = -2147483649` wraps to 2147483647), witnesses replayed on the real macro",
+]
 RULE = ("programs of generated valid documents (gen_toml.TreeGen over macro-supported spellings, judged valid by the reference "
         "interpreter) embedded in toml!{..} and as string literals; non-trivial = supported, valid, and both sides produced a table")
 ASSUMPTIONS = [
